@@ -69,7 +69,7 @@ P = {
 }
 
 
-COMMON = ('; workloads widened over thirteen rounds of independently seeded defects (561 changes) and a systematic first-order mutation of the '
+COMMON = ('; workloads widened over fourteen rounds of independently seeded defects (597 changes) and a systematic first-order mutation of the '
           'library: scale regimes, input representations (numpy scalars, str subclasses, falsy user objects, identifiers with pattern / template '
           'metacharacters or unnormalised unicode, integers beyond the range of a double), alternative call spellings and less-travelled public '
           'entry points (deprecated aliases, defaults, documented attributes read and written directly), a second model / world / library kept '
